@@ -18,7 +18,7 @@ def replay(args, outdir):
         return r
     H.FakeRead = mk
     a, lemma = args['cex'], args['lemma']
-    fn = {'L1_pick_best_base_call': H._l1_pick_best, 'L2_mate_overlap': H._l2_mates, 'L2b_dovetail_window': H._l2b_dovetail, 'L3_majority': H._l3_majority, 'L3b_majority_indel': H._l3b_majority_indel, 'L4_order_duplication': H._l4_order}[lemma]
+    fn = {'L1_pick_best_base_call': H._l1_pick_best, 'L2_mate_overlap': H._l2_mates, 'L2b_dovetail_window': H._l2b_dovetail, 'L3_majority': H._l3_majority, 'L3b_majority_indel': H._l3b_majority_indel, 'L3c_same_strand_pair_skipped': H._l3c_odd_pair, 'L4_order_duplication': H._l4_order}[lemma]
     try:
         ok = fn(**a)
     except Exception as e:
